@@ -36,10 +36,11 @@ Proof.
   all: intros now d problem lsc ex; unfold src_downtime_start_trigger, xs_trigger.
   all: pose proof (fun t => src_downtime_trigger_downtime_eq H2 now d t ex) as T; unfold xdt in T.
   all: pose proof (src_downtime_can_be_triggered_eq eq_refl now d) as C; unfold xdt in C.
-  all: destruct (d_fixed d) eqn:Hf; cbn [negb andb]; cbv zeta.
-  all: try (rewrite C; fold (xs_level now d (Z.max (d_start d) (d_entry d)) ex) in T).
-  all: try (destruct (dt_can_be_triggered now d) eqn:Hc; cbn [andb]; [rewrite T; unfold xs_level; rewrite Hc; reflexivity|reflexivity]).
-  all: destruct problem; cbn [andb]; [rewrite T; unfold xs_level; destruct (dt_can_be_triggered now d); reflexivity|reflexivity].
+  all: unfold xs_level.
+  all: destruct (d_fixed d) eqn:Hf, problem, (dt_can_be_triggered now d) eqn:Hc.
+  all: repeat first [ progress cbn [negb andb orb fst snd app] | progress cbv beta iota zeta | rewrite andb_false_r | rewrite andb_true_r
+                    | rewrite C | rewrite T | rewrite Hc ].
+  all: reflexivity.
 Qed.
 
 (* ------------------------------------------------------------------ Downtime::RemoveDowntime before the deletion *)
